@@ -1,0 +1,22 @@
+//go:build verif
+// +build verif
+
+package rest
+
+import (
+	"github.com/kubewharf/apiserver-runtime/pkg/registry"
+)
+
+// VerifStorageOptions returns the RESTStorageOptions that NewRESTStorageProvider
+// registers for the proxy group's kinds. Verification-only hook.
+func VerifStorageOptions(factory *registry.RESTStorageOptionsFactory) ([]registry.RESTStorageOptions, error) {
+	uc, err := newUpstreamClusterOption(factory)
+	if err != nil {
+		return nil, err
+	}
+	rc, err := newRateLimitConditionOption(factory)
+	if err != nil {
+		return nil, err
+	}
+	return []registry.RESTStorageOptions{uc, rc}, nil
+}
